@@ -44,6 +44,17 @@ macro_rules! ansb_impl {
                         let s = with_p!($Pr, m.p, $plist, |tm| coder.decode_symbol(tm), &m.t).unwrap();
                         out.push(s as Int);
                     }
+                    9 => {
+                        // batch form on the bounded sink: stops at the first failure, keeps the prefix
+                        let m = &models[r.us()];
+                        let syms: Vec<i64> = r.list().into_iter().map(|x| x as i64).collect();
+                        let res = with_p!($Pr, m.p, $plist, |tm| coder.encode_iid_symbols(syms.iter(), tm), &m.t);
+                        out.push(match res {
+                            Ok(()) => 0,
+                            Err(CoderError::Frontend(_)) => ERR_IMPOSSIBLE,
+                            Err(CoderError::Backend(_)) => ERR_FULL,
+                        });
+                    }
                     12 => push_raw(&coder, out),
                     other => panic!("harness: unknown ansb op {}", other),
                 }
